@@ -44,6 +44,8 @@ def generate(seed, tier, index):
     ndev = rng.choice([1, 2, 2, 3])
     specs = [G.gen_device(rng, f"DEV{i}", kinds=c01.KINDS, spicy=rng.random() < 0.6, max_depth=3, all_min_max=rng.random() < 0.5)
              for i in range(ndev)]
+    if ndev >= 2 and rng.random() < 0.3:
+        specs[1] = G.clone_as_second_instance(specs[0], "DEV1")  # two instances of one driver class
     vecs, els, groups = c01._targets(specs)
     steps = [{"op": "start_client", "c": 0}]
     n = rng.randint(2, 30 if thorough else 12)
@@ -143,6 +145,30 @@ def execute(scen):
         stack = Stack(sim, scen["devices"])
         stack.add_client(start=False)
         names = set(stack.drivers)
+        # what the history says about enable flags, per device instance (independent of the driver objects)
+        flags = {}
+        for spec in scen["devices"]:
+            for g in G.effective_groups(spec).values():
+                flags[(spec["name"], "g", g["name"])] = g["enabled"]
+                for v in g["vectors"].values():
+                    flags[(spec["name"], "v", v["name"])] = v["enabled"]
+                    flags[(spec["name"], "vg", v["name"])] = g["name"]
+                    for e in v["elements"].values():
+                        flags[(spec["name"], "e", v["name"], e["name"])] = e["enabled"]
+
+        def check_flags(ctx):
+            for d in stack.drivers:
+                t = stack.truth(d)
+                for vname, tv in t["vectors"].items():
+                    want = flags[(d, "v", vname)] and flags[(d, "g", flags[(d, "vg", vname)])]
+                    if bool(tv["enabled"]) != bool(want):
+                        viol.append({"clause": "C07.defs", "detail": f"device {d}: property {vname} is {'enabled' if tv['enabled'] else 'disabled'} although the history of operations on {d} says {'enabled' if want else 'disabled'}; {ctx}", "facts": facts})
+                        return
+                    for en, te in tv["elements"].items():
+                        if bool(te["enabled"]) != bool(flags[(d, "e", vname, en)]):
+                            viol.append({"clause": "C07.members", "detail": f"device {d}: element {vname}.{en} is {'enabled' if te['enabled'] else 'disabled'} although no operation on {d} made it so (cross-talk between devices?); {ctx}", "facts": facts})
+                            return
+
         for st in scen["steps"]:
             if viol:
                 break
@@ -153,6 +179,9 @@ def execute(scen):
                     viol.append({"clause": "C07.defs", "detail": f"stack broke before the request: {stack.escaped()} {watchdog.S.tripped}", "facts": facts})
                     break
                 truths = {d: stack.truth(d) for d in stack.drivers}
+                check_flags(f"before getProperties device={st['device']!r} name={st['name']!r}")
+                if viol:
+                    break
                 if any(t["missing_groups"] for t in truths.values()):
                     viol.append({"clause": "C07.defs", "detail": "driver lacks group objects its definition declares", "facts": facts})
                     break
@@ -208,6 +237,12 @@ def execute(scen):
                 elif not res.skipped and op.startswith("d_"):
                     changed = True
                     if op == "d_eenable":
+                        flags[(st["dev"], "e", st["vec"], st["el"])] = st["value"]
+                    elif op == "d_venable":
+                        flags[(st["dev"], "v", st["vec"])] = st["value"]
+                    elif op == "d_genable":
+                        flags[(st["dev"], "g", st["group"])] = st["value"]
+                    if op == "d_eenable":
                         probes["element_enable_flip"] = probes.get("element_enable_flip", 0) + 1
         if not viol:
             sim.settle()
@@ -215,6 +250,8 @@ def execute(scen):
                 sname, what = stack.reparse_failures[0]
                 viol.append({"clause": "C07.reparse", "detail": f"a message emitted by {sname} {what} ({len(stack.reparse_failures)} such messages)", "facts": facts})
         probes["messages_reparsed"] = sum(1 for o, _, _ in stack.router_log if o == "driver")
+        for k, v in sim.probes.items():
+            probes[k] = probes.get(k, 0) + v
         digest = sim.digest()
         vtime, steps = sim.loop.time(), sim.loop.steps
     for c in classes:
